@@ -138,9 +138,9 @@ func newV2(prefix string, ct *Controllers) (cg Cgroup, err error) {
 	v2 := &V2{
 		path:    filepath.Join(basePath, prefix),
 		control: ct,
-	}
-	if _, err := os.Stat(v2.path); err == nil {
-		v2.existing = true
+		// the group counts as created by this handle only if its own mkdir of the
+		// last component succeeds (see below)
+		existing: true,
 	}
 	defer func() {
 		if err != nil && !v2.existing {
@@ -155,13 +155,18 @@ func newV2(prefix string, ct *Controllers) (cg Cgroup, err error) {
 	// start from base dir
 	entries := strings.Split(prefix, "/")
 	current := ""
-	for _, e := range entries {
+	for i, e := range entries {
 		parent := current
 		current = current + "/" + e
 		// try mkdir if not exists
 		if _, err := os.Stat(filepath.Join(basePath, current)); os.IsNotExist(err) {
 			if err := os.Mkdir(filepath.Join(basePath, current), dirPerm); err != nil {
-				return nil, err
+				// a concurrent creator was faster: the directory exists, but it is not ours
+				if !os.IsExist(err) {
+					return nil, err
+				}
+			} else if i == len(entries)-1 {
+				v2.existing = false
 			}
 		} else if err != nil {
 			return nil, err
